@@ -3,7 +3,7 @@
     → "<model>\t<spec>"
   model = ok | err <path set> r=<0|1> p=<0|1>   (paths of the issues the model of the code reports;
           r: every path resolves in the input or reaches the parent of a missing key;
-          p: every path is the planted location or a prefix of it (1 when nothing was planted))
+          p: every path is the planted location, a prefix of it, or inside the planted value (1 when nothing was planted))
   spec  = ok | err <ideal path set>             (complete paths of the offending locations)
 -/
 import Gozod.Model.Containers
@@ -14,9 +14,10 @@ open Gozod.Cont Gozod.Drv.ContParse
 
 def b01 (b : Bool) : String := if b then "1" else "0"
 
+/-- the issue is at the fault, above it, or inside the value planted there. -/
 def isPrefix : List Seg → List Seg → Bool
   | [], _ => true
-  | _ :: _, [] => false
+  | _ :: _, [] => true
   | a :: as, b :: bs => a == b && isPrefix as bs
 
 def fault : List String → Option (Option (List Seg))
